@@ -50,13 +50,15 @@ LEVEL_NOTE = ("Trusted: Coq kernel + vm_compute; the hand-written association-li
               "(ints within 64 bits, str-keyed dicts). Dictionary keys and field names are text. No axioms (Print Assumptions: closed).")
 DESIGN_REF = "DESIGN.md section 8, C02"
 COQ_IMPORTS = "From Orso Require Import Model.C02."
-COQ_CHECKS = {"row": "c02_row_check", "frame": "c02_frame_check"}
-COQ_SHOW = {"row": "c02_row_show", "frame": "c02_frame_show"}
+COQ_CHECKS = {"row": "c02_row_check", "frame": "c02_frame_check", "session": "c02_session_check"}
+COQ_SHOW = {"row": "c02_row_show", "frame": "c02_frame_show", "session": "c02_session_show"}
 RULE = ("row cases: field list (0..6 names, duplicates, confusable/Unicode/empty names) x dictionary (sub/superset of the fields, shuffled "
         "insertion order, values of every kind incl. None/NaN/-0.0/nested) x looked-up names present and absent, run through "
         "Row.create_class(fields)(dict) (also with reversed insertion order), DataFrame(rows=[], schema=fields).append(dict), the five views "
         "and get; frame cases: sequences of 0..6 dictionaries through DataFrame(list or generator) then append(dict); records handed over as dict, OrderedDict, dict subclasses, Counter, defaultdict and UserDict "
-        "(input mapping must stay unchanged); exhaustive over the stated "
+        "(input mapping must stay unchanged); sessions: histories that create several row classes / frames (dict-aware and tuples-only classes, from_arrow, "
+        "DataFrame(dicts), DataFrame(rows=[], schema)) - mostly over the same name list - and use every handle after the others exist; "
+        "exhaustive over the stated "
         "small scope, then random; a case is non-trivial when some field/column receives a non-None value from a dictionary; distinct by canonical JSON")
 TRUSTED = [
     "C02 model (coq/Model/C02.v): a dictionary is an association list in insertion order with pairwise different keys; PyDict_GetItem / dict.get "
@@ -385,7 +387,412 @@ def _observe_frame(case):
     return out
 
 
+# ------------------------------------------------------------------ sessions
+# {"kind": "session", "pool": [...], "ops": [op, ...], "mapping": ...}    several row classes / frames in one process
+#   ["class", fields, tuples_only]   Row.create_class(fields, tuples_only)         -> class handle (numbered from 0)
+#   ["arrow", cols, [[vi, ...], ...]] DataFrame.from_arrow(table with those columns) -> frame handle
+#   ["frame", [items, ...], gen]     DataFrame(records)                             -> frame handle
+#   ["named", cols]                  DataFrame(rows=[], schema=cols)                -> frame handle
+#   ["rowdict", c, items]            class c applied to a record (dict-aware classes only) -> row handle
+#   ["rowtuple", c, [vi, ...]]       class c applied to a tuple                     -> row handle
+#   ["append", f, items]             frame f .append(record)   (not on Arrow frames: their schema validates)
+#   ["rows", f]                      column_names and rows of frame f
+#   ["view", r]                      keys / cells / as_dict of row r, read again
+# observed per op: ["class"] | ["frame", cols, rows] | ["row", keys, cells, as_dict items] | ["raise", E]
+def _session_handles(ops):
+    """(classes, frames, rows) created by the ops, or None when an op uses a handle it may not use."""
+    classes, frames, rows = [], [], 0
+    for op in ops:
+        k = op[0]
+        if k == "class":
+            classes.append(bool(op[2]))
+        elif k == "arrow":
+            if len(set(op[1])) != len(op[1]) or any(len(r) != len(op[1]) for r in op[2]) or (op[2] and not op[1]):
+                return None  # (a table without columns has no rows)
+            frames.append(False)
+        elif k in ("frame", "named"):
+            frames.append(True)
+        elif k == "rowdict":
+            if not (0 <= op[1] < len(classes)) or classes[op[1]]:
+                return None
+            rows += 1
+        elif k == "rowtuple":
+            if not (0 <= op[1] < len(classes)):
+                return None
+            rows += 1
+        elif k == "append":
+            if not (0 <= op[1] < len(frames)) or not frames[op[1]]:
+                return None
+        elif k == "rows":
+            if not (0 <= op[1] < len(frames)):
+                return None
+        elif k == "view":
+            if not (0 <= op[1] < rows):
+                return None
+        else:
+            return None
+    return classes, frames, rows
+
+
+def _arrow_table(cols, rows, pool):
+    import pyarrow
+
+    arrays = []
+    for j in range(len(cols)):
+        cells = [pool.objs[r[j]] for r in rows]
+        arrays.append(pyarrow.array(cells) if cells else pyarrow.array([], type=pyarrow.int64()))
+    return pyarrow.Table.from_arrays(arrays, names=list(cols))
+
+
+def _observe_session(case):
+    from orso.dataframe import DataFrame
+    from orso.row import Row
+
+    if _session_handles(case["ops"]) is None:
+        raise ValueError("invalid session")
+    pool = _Pool(case["pool"])
+    mapping = case.get("mapping", "dict")
+    classes, frames, rows = [], [], []
+    outs = []
+    unchanged = True
+    # Every name is given a suffix unique to this session when it is handed to the implementation (and stripped from what
+    # comes back), so that state the implementation may keep per name list cannot leak from one case into the next:
+    # a failing session then fails on its own, in a fresh process too, and shrinking keeps the calls that matter.
+    import hashlib
+
+    tag = "\x1f" + hashlib.sha1(json.dumps([case["ops"], mapping], sort_keys=True).encode()).hexdigest()[:8]
+
+    def enc(k):
+        return k + tag
+
+    def dec(k):
+        k = _name(k)
+        return k[: -len(tag)] if k.endswith(tag) else "?untagged:" + k
+
+    def encd(items):
+        return [[enc(k), vi] for k, vi in items]
+
+    def frame_out(df):
+        cols = tuple(df.column_names)
+        n = df.rowcount
+        rs = list(df)
+        if n != len(rs) or len(df) != n or df.shape != (n, len(cols)):
+            raise ValueError("rowcount/shape/len disagree with iteration")
+        if not all(isinstance(r, Row) and tuple(r._fields) == cols for r in rs):
+            raise TypeError("a stored row is not a Row over the frame's columns")
+        return ["frame", [dec(c) for c in cols], [[pool.vid(x) for x in tuple(r)] for r in rs]]
+
+    def row_out(r):
+        if not isinstance(r, tuple):
+            raise TypeError("not a tuple")
+        m = r.as_dict
+        if type(m) is not dict:
+            raise TypeError("as_dict is not a dict")
+        return ["row", [dec(k) for k in r.keys()], [pool.vid(x) for x in tuple(r)], [[dec(k), pool.vid(v)] for k, v in m.items()]]
+
+    for op in case["ops"]:
+        k = op[0]
+        table = _arrow_table([enc(c) for c in op[1]], op[2], pool) if k == "arrow" else None  # a bad table is the harness's fault
+        rec = _mkrecord(encd(op[2]), pool, mapping) if k in ("rowdict", "append") else None
+        recs = [_mkrecord(encd(items), pool, mapping) for items in op[1]] if k == "frame" else []
+        names = [enc(c) for c in op[1]] if k in ("class", "named") else None
+        before = [_snap(m) for m in recs + ([rec] if rec is not None else [])]
+        try:
+            if k == "class":
+                classes.append(None)
+                classes[-1] = Row.create_class(tuple(names), tuples_only=True) if op[2] else Row.create_class(names)
+                outs.append(["class"])
+            elif k == "arrow":
+                frames.append(None)
+                frames[-1] = DataFrame.from_arrow(table)
+                outs.append(frame_out(frames[-1]))
+            elif k == "frame":
+                frames.append(None)
+                frames[-1] = DataFrame((m for m in recs) if op[2] else recs)
+                outs.append(frame_out(frames[-1]))
+            elif k == "named":
+                frames.append(None)
+                frames[-1] = DataFrame(rows=[], schema=names)
+                outs.append(frame_out(frames[-1]))
+            elif k == "rowdict":
+                rows.append(None)
+                rows[-1] = classes[op[1]](rec)
+                outs.append(row_out(rows[-1]))
+            elif k == "rowtuple":
+                rows.append(None)
+                rows[-1] = classes[op[1]](tuple(pool.objs[vi] for vi in op[2]))
+                outs.append(row_out(rows[-1]))
+            elif k == "append":
+                frames[op[1]].append(rec)
+                outs.append(frame_out(frames[op[1]]))
+            elif k == "rows":
+                outs.append(frame_out(frames[op[1]]))
+            elif k == "view":
+                outs.append(row_out(rows[op[1]]))
+        except Exception as e:
+            outs.append(_exc(e))
+        unchanged = unchanged and [_snap(m) for m in recs + ([rec] if rec is not None else [])] == before
+    return {"outs": outs, "input_unchanged": unchanged}
+
+
+def _oracle_session(case, obs):
+    """The property per call, with the little bookkeeping it needs (which names a handle was created with)."""
+    pool = _Pool(case["pool"])
+    if obs.get("input_unchanged") is False:
+        return "the mappings handed to Row(...) / DataFrame(...) / append(...) must be left unchanged"
+    classes, frames, rows = [], [], []
+    for i, (op, out) in enumerate(zip(case["ops"], obs["outs"])):
+        k = op[0]
+        where = f"op {i} {op[0]}"
+        if _is_raise(out):
+            return f"{where}: must not raise, raised {out[1]}"
+        if k == "class":
+            classes.append(list(op[1]))
+            want = ["class"]
+        elif k == "arrow":
+            frames.append([list(op[1]), [[pool.ids[vi] for vi in r] for r in op[2]]])
+            want = ["frame"] + frames[-1]
+        elif k == "frame":
+            cols = [key for key, _ in op[1][0]] if op[1] else []
+            frames.append([cols, [[_assoc(items, pool).get(c, 0) for c in cols] for items in op[1]]])
+            want = ["frame"] + frames[-1]
+        elif k == "named":
+            frames.append([list(op[1]), []])
+            want = ["frame"] + frames[-1]
+        elif k == "rowdict":
+            D = _assoc(op[2], pool)
+            fields = classes[op[1]]
+            rows.append([fields, [D.get(f, 0) for f in fields], True])
+            want = None
+        elif k == "rowtuple":
+            rows.append([classes[op[1]], [pool.ids[vi] for vi in op[2]], False])
+            want = None
+        elif k == "append":
+            D = _assoc(op[2], pool)
+            fr = frames[op[1]]
+            fr[1] = fr[1] + [[D.get(c, 0) for c in fr[0]]]
+            want = ["frame"] + fr
+        elif k == "rows":
+            want = ["frame"] + frames[op[1]]
+        if k in ("rowdict", "rowtuple", "view"):
+            fields, cells, from_dict = rows[op[1]] if k == "view" else rows[-1]
+            if out[0] != "row" or out[1] != fields or out[2] != cells:
+                return (f"{where}: the row must have the names {fields} of the class it was built with and the cells {cells} "
+                        f"(each field's value at its position, 0=None when absent), got names {out[1] if len(out) > 1 else None} cells {out[2] if len(out) > 2 else None}")
+            if from_dict or (len(set(fields)) == len(fields) == len(cells)):
+                if dict((a, b) for a, b in out[3]) != dict(zip(fields, cells)) or len(out[3]) != len(set(fields)):
+                    return f"{where}: as_dict must be the association {dict(zip(fields, cells))}, got {out[3]}"
+        elif out != want:
+            if k == "class":
+                return f"{where}: expected a class"
+            return (f"{where}: the frame must have the columns {want[1]} it was created with and the rows {want[2]} "
+                    f"(one per dictionary, each field's value at its column, 0=None when absent), got columns {out[1] if len(out) > 1 else None} rows {out[2] if len(out) > 2 else None}")
+    if len(obs["outs"]) != len(case["ops"]):
+        return "one observation per call expected"
+    return None
+
+
+def _coq_sout(o):
+    if _is_raise(o):
+        return "(SORaise %s)" % (o[1] if o[1] in _EXN else "OtherError")
+    if o[0] == "class":
+        return "SOClass"
+    if o[0] == "frame":
+        return "(SOFrame %s %s)" % (_keys(o[1]), _zss(o[2]))
+    return "(SORow %s %s %s)" % (_keys(o[1]), _zs(o[2]), _kvs(o[3]))
+
+
+def _coq_sop(op, pool):
+    k = op[0]
+    if k == "class":
+        return "(SClass %s %s)" % (_keys(op[1]), L.boolean(op[2]))
+    if k == "arrow":
+        return "(SArrow %s %s)" % (_keys(op[1]), _zss([[pool.ids[vi] for vi in r] for r in op[2]]))
+    if k == "frame":
+        return "(SFrame (%s : list zdict))" % L.lst(_zdict(d, pool) for d in op[1])
+    if k == "named":
+        return "(SNamed %s)" % _keys(op[1])
+    if k == "rowdict":
+        return "(SRowDict %s %s)" % (L.nat(op[1]), _zdict(op[2], pool))
+    if k == "rowtuple":
+        return "(SRowTuple %s %s)" % (L.nat(op[1]), _zs([pool.ids[vi] for vi in op[2]]))
+    if k == "append":
+        return "(SAppend %s %s)" % (L.nat(op[1]), _zdict(op[2], pool))
+    if k == "rows":
+        return "(SRows %s)" % L.nat(op[1])
+    if k == "view":
+        return "(SView %s)" % L.nat(op[1])
+    raise KeyError(k)
+
+
+def _session_to_coq(case, obs):
+    pool = _Pool(case["pool"])
+    return ("session", "((%s : list (sop key Z)), (%s : list (sout key Z)))" % (
+        L.lst(_coq_sop(op, pool) for op in case["ops"]), L.lst(_coq_sout(o) for o in obs["outs"])))
+
+
+_CREATORS = ["class", "tclass", "arrow", "frame", "named"]
+
+
+def _creator_ops(kind, fields, tag):
+    """(creating op, ops that use the created handle) - values 1..3 of _XPOOL under a, b, c."""
+    val = {"a": 1, "b": 2, "c": 3}
+    if kind == "class":
+        return ["class", fields, False], lambda h: [["rowdict", h, [["c", 3], ["b", 2], ["a", 1]][tag % 2:]]]
+    if kind == "tclass":
+        return ["class", fields, True], lambda h: [["rowtuple", h, [val[f] for f in fields]]]
+    if kind == "arrow":
+        return ["arrow", fields, [[val[f] for f in fields], [3 for _ in fields]]], lambda h: [["rows", h]]
+    if kind == "frame":
+        return ["frame", [[[f, val[f]] for f in fields]], bool(tag % 2)], lambda h: [["append", h, [["b", 3], ["c", 1], ["a", 2]][: 3 - tag % 2]], ["rows", h]]
+    return ["named", fields], lambda h: [["append", h, [["b", 2], ["a", 1]]], ["append", h, [["c", 1]]]]
+
+
+def _enumerated_session(creators):
+    """creators: [(kind, fields)]: create all, then use every handle (in creation order when the number of creators is
+    odd, in reverse otherwise), then read every row and frame again."""
+    ops, uses = [], []
+    nclass = nframe = 0
+    for tag, (kind, fields) in enumerate(creators):
+        op, use = _creator_ops(kind, list(fields), tag)
+        ops.append(op)
+        if kind in ("class", "tclass"):
+            uses.append(use(nclass))
+            nclass += 1
+        else:
+            uses.append(use(nframe))
+            nframe += 1
+    if len(creators) % 2 == 0:
+        uses.reverse()
+    nrows = 0
+    for u in uses:
+        for op in u:
+            ops.append(op)
+            if op[0] in ("rowdict", "rowtuple"):
+                nrows += 1
+    ops += [["view", r] for r in range(nrows)] + [["rows", f] for f in range(nframe)]
+    return {"kind": "session", "pool": _XPOOL, "ops": ops, "mapping": "dict"}
+
+
+def _session_exhaustive(tier):
+    lists = [["a", "b"], ["b", "a"], ["a"]] if tier == "quick" else [["a", "b"], ["b", "a"], ["a"], ["a", "b", "c"]]
+    cre = [(k, f) for f in lists for k in _CREATORS]
+    for c1 in cre:
+        yield _enumerated_session([c1])
+        for c2 in cre:
+            yield _enumerated_session([c1, c2])
+    same = [(k, ["a", "b"]) for k in _CREATORS]
+    for c1 in same:
+        for c2 in same:
+            for c3 in (same if tier == "thorough" else same[:2]):
+                yield _enumerated_session([c1, c2, c3])
+
+
+def _random_session(rng):
+    base = rng.sample(_PLAIN[:4] + (_TRICKY if rng.random() < 0.2 else []), rng.randint(1, 3))
+    pool = [["int", rng.randint(-5, 5)], ["int", 2 ** 40 + rng.randint(0, 9)], ["str", rng.choice(["x", "", "é"])], ["str", "y"]]
+    pool += [_rand_value(rng) for _ in range(rng.randint(0, 4))]
+    ints, strs = [0, 1], [2, 3]
+
+    def names():
+        r = rng.random()
+        if r < 0.55:
+            return list(base)  # the same names again and again: handles over equal field lists must not interfere
+        if r < 0.75:
+            l = list(base)
+            rng.shuffle(l)
+            return l
+        if r < 0.9:
+            return base[: rng.randint(0, len(base))]
+        return base + [rng.choice(_PLAIN[4:])]
+
+    ops, classes, frames, nrows = [], [], [], 0
+    for _ in range(rng.randint(3, 12)):
+        r = rng.random()
+        dict_classes = [i for i, t in enumerate(classes) if not t]
+        dict_frames = [i for i, t in enumerate(frames) if t]
+        if r < 0.14 or not (classes or frames):
+            classes.append(rng.random() < 0.5)
+            f = names()
+            if rng.random() < 0.15 and f:
+                f = f + [f[0]]  # duplicate name
+            ops.append(["class", f, classes[-1]])
+        elif r < 0.24:
+            cols = list(dict.fromkeys(names()))
+            kinds = [rng.choice([ints, strs]) for _ in cols]
+            ops.append(["arrow", cols, [[rng.choice(kd) for kd in kinds] for _ in range(rng.choice([0, 1, 2, 3]) if cols else 0)]])
+            frames.append(False)
+        elif r < 0.34:
+            first = names()
+            ds = []
+            for j in range(rng.choice([0, 1, 2, 3])):
+                ds.append([[k, rng.randrange(len(pool))] for k in first] if j == 0 else _rand_dict(rng, base + ["zz"], len(pool), bias=first))
+            ops.append(["frame", ds, rng.random() < 0.3])
+            frames.append(True)
+        elif r < 0.42:
+            ops.append(["named", names()])
+            frames.append(True)
+        elif r < 0.62 and dict_classes:
+            ops.append(["rowdict", rng.choice(dict_classes), _rand_dict(rng, base + ["zz"], len(pool), bias=base)])
+            nrows += 1
+        elif r < 0.7 and classes:
+            c = rng.randrange(len(classes))
+            width = len(next(o for o in [o for o in ops if o[0] == "class"][c:c + 1])[1])
+            ops.append(["rowtuple", c, [rng.randrange(len(pool)) for _ in range(width)]])
+            nrows += 1
+        elif r < 0.86 and dict_frames:
+            ops.append(["append", rng.choice(dict_frames), _rand_dict(rng, base + ["zz"], len(pool), bias=base)])
+        elif r < 0.93 and frames:
+            ops.append(["rows", rng.randrange(len(frames))])
+        elif nrows:
+            ops.append(["view", rng.randrange(nrows)])
+    ops += [["view", r] for r in range(nrows)] + [["rows", f] for f in range(len(frames))]
+    return {"kind": "session", "pool": pool, "ops": ops, "mapping": _rand_mapping(rng)}
+
+
+def _remove_session_op(ops, i):
+    """ops without op i; uses of the handle it created are dropped and later handles renumbered."""
+    k = ops[i][0]
+    made = "class" if k == "class" else "frame" if k in ("arrow", "frame", "named") else "row" if k in ("rowdict", "rowtuple") else None
+    users = {"class": ("rowdict", "rowtuple"), "frame": ("append", "rows"), "row": ("view",)}.get(made, ())
+    creators = {"class": ("class",), "frame": ("arrow", "frame", "named"), "row": ("rowdict", "rowtuple")}.get(made, ())
+    h = sum(1 for o in ops[:i] if o[0] in creators)
+    out = []
+    for j, o in enumerate(ops):
+        if j == i:
+            continue
+        if o[0] in users:
+            if o[1] == h:
+                if o[0] in ("rowdict", "rowtuple"):
+                    return None  # would cascade into row handles; keep it simple
+                continue
+            if o[1] > h:
+                o = [o[0], o[1] - 1] + list(o[2:])
+        out.append(o)
+    return out
+
+
+def _shrink_session(case):
+    ops = case["ops"]
+    for i in reversed(range(len(ops))):
+        cand = _remove_session_op(ops, i)
+        if cand is not None and _session_handles(cand) is not None:
+            yield dict(case, ops=cand)
+    for i, o in enumerate(ops):
+        if o[0] in ("rowdict", "append"):
+            for j in range(len(o[2])):
+                yield dict(case, ops=ops[:i] + [[o[0], o[1], o[2][:j] + o[2][j + 1:]]] + ops[i + 1:])
+        if o[0] == "arrow" and o[2]:
+            yield dict(case, ops=ops[:i] + [[o[0], o[1], o[2][:-1]]] + ops[i + 1:])
+        if o[0] == "frame" and o[1]:
+            yield dict(case, ops=ops[:i] + [[o[0], o[1][:-1], o[2]]] + ops[i + 1:])
+    if case.get("mapping", "dict") != "dict":
+        yield dict(case, mapping="dict")
+
+
 def observe(case):
+    if case["kind"] == "session":
+        return _observe_session(case)
     return _observe_row(case) if case["kind"] == "row" else _observe_frame(case)
 
 
@@ -490,6 +897,8 @@ def _oracle_frame(case, obs):
 
 
 def oracle(case, obs):
+    if case["kind"] == "session":
+        return _oracle_session(case, obs)
     return _oracle_row(case, obs) if case["kind"] == "row" else _oracle_frame(case, obs)
 
 
@@ -532,6 +941,8 @@ def _zdict(items, pool):
 
 
 def to_coq(case, obs):
+    if case["kind"] == "session":
+        return _session_to_coq(case, obs)
     pool = _Pool(case["pool"])
     if case["kind"] == "row":
         lookups = L.lst(L.pair(L.text(n), L.opt(None if di is None else L.Z(pool.ids[di]))) for n, di in case["lookups"])
@@ -553,6 +964,11 @@ def to_coq(case, obs):
 # ------------------------------------------------------------------ evidence helpers
 def nontrivial_key(case, obs):
     pool = _Pool(case["pool"])
+    if case["kind"] == "session":
+        # non-trivial: a dictionary with a non-None value reaches a class or frame while another handle exists
+        creators = sum(1 for o in case["ops"] if o[0] in ("class", "arrow", "frame", "named"))
+        fed = any(o[0] in ("rowdict", "append") and any(pool.ids[vi] != 0 for _, vi in o[2]) for o in case["ops"])
+        return json.dumps(case, sort_keys=True) if creators >= 2 and fed else None
     if case["kind"] == "row":
         D = _assoc(case["dict"], pool)
         if not any(D.get(f, 0) != 0 for f in case["fields"]):
@@ -566,6 +982,21 @@ def nontrivial_key(case, obs):
 def classify(case, obs):
     yield case["kind"]
     yield "mapping:" + case.get("mapping", "dict")
+    if case["kind"] == "session":
+        made = []
+        for o in case["ops"]:
+            yield "op:" + o[0] + ("-tuples-only" if o[0] == "class" and o[2] else "")
+            if o[0] in ("class", "arrow", "named"):
+                made.append((o[0] + str(o[2]) if o[0] == "class" else o[0], tuple(o[1])))
+            elif o[0] == "frame":
+                made.append(("frame", tuple(k for k, _ in o[1][0]) if o[1] else ()))
+        names = [f for _, f in made]
+        if len(set(names)) < len(names):
+            yield "handles-over-equal-name-lists"
+        if any(k1 in ("classTrue", "arrow") and k2 in ("classFalse", "frame", "named") and f1 == f2
+               for i, (k1, f1) in enumerate(made) for (k2, f2) in made[i + 1:]):
+            yield "tuples-only-class-before-dict-class-same-names"
+        return
     if case["kind"] == "row":
         f = case["fields"]
         keys = [k for k, _ in case["dict"]]
@@ -601,6 +1032,11 @@ def classify(case, obs):
 
 # ------------------------------------------------------------------ generators
 def corpus():
+    # round 2 (seeded change r2s1): a tuples-only class (from_arrow) over the same names created first
+    yield {"kind": "session", "pool": [["int", 1], ["int", 2], ["str", "one"], ["str", "two"], ["str", "x"]], "mapping": "dict",
+           "ops": [["arrow", ["id", "name"], [[0, 2], [1, 3]]], ["frame", [[["id", 0], ["name", 2]]], False],
+                   ["append", 1, [["name", 3], ["id", 1]]], ["append", 1, [["name", 2], ["other", 4]]],
+                   ["class", ["id", "name"], False], ["rowdict", 0, [["name", 3], ["id", 1]]], ["view", 0], ["rows", 0], ["rows", 1]]}
     # F-C02-1 (fixed de54b21): Row.get('zz', 7) raised ValueError instead of returning the default
     yield {"kind": "row", "fields": ["a"], "pool": [["int", 1], ["int", 7]], "dict": [["a", 0]],
            "lookups": [["zz", 1], ["zz", None], ["a", 1]]}
@@ -675,12 +1111,19 @@ def exhaustive(tier):
                 yield {"kind": "frame", "pool": _XPOOL, "dicts": [d1], "appends": app, "gen": True, "mapping": mk}
                 for d2 in (ab if tier == "thorough" else ab[:5]):
                     yield {"kind": "frame", "pool": _XPOOL, "dicts": [d1, d2], "appends": app, "gen": False, "mapping": mk}
+        # several handles alive in one process
+        for c in _session_exhaustive(tier):
+            yield c
 
     return it(), (f"row: all field lists of <= {maxf} names over the 3-name alphabet {{a,b,c}} x all dictionaries over that alphabet "
                   f"(every subset, every insertion order, each value its own or None; 79) x 6 lookups; frame: all sequences of <= 2 "
                   f"dictionaries over a {len(fnames)}-name alphabet (every subset/order/None pattern), each followed by one append; "
                   f"and for each of the mapping classes OrderedDict, dict subclass, dict subclass with __missing__, Counter, defaultdict, UserDict: "
-                  f"all field lists of <= 2 names x all dictionaries over a {len(mnames_for_label(tier))}-name alphabet, and frames of <= 2 dictionaries over {{a,b}}" + (" (second dictionary from 5 of the 13)" if tier == "quick" else ""))
+                  f"all field lists of <= 2 names x all dictionaries over a {len(mnames_for_label(tier))}-name alphabet, and frames of <= 2 dictionaries over {{a,b}}" + (" (second dictionary from 5 of the 13)" if tier == "quick" else "")
+                  + "; sessions: every sequence of 1 or 2 handle creations out of {dict-aware class, tuples-only class, from_arrow frame, "
+                    "DataFrame(dicts), DataFrame(rows=[], schema)} x name lists {[a,b],[b,a],[a]" + ("" if tier == "quick" else ",[a,b,c]")
+                  + "}, and triples over [a,b]" + (" (third creator: the two class kinds)" if tier == "quick" else "")
+                  + ", each followed by a use of every handle and a re-read of every row and frame")
 
 
 _PLAIN = ["a", "b", "c", "d", "e", "f", "g"]
@@ -766,14 +1209,20 @@ def generate(rng, tier):
     count = 1800 if tier == "quick" else 36000
     for i in range(count):
         yield _random_frame(rng) if i % 3 == 2 else _random_row(rng)
+    for i in range(500 if tier == "quick" else 10000):
+        yield _random_session(rng)
 
 
 def search(rng):
     while True:
-        yield _random_frame(rng) if rng.random() < 0.35 else _random_row(rng)
+        r = rng.random()
+        yield _random_session(rng) if r < 0.3 else _random_frame(rng) if r < 0.55 else _random_row(rng)
 
 
 def shrink(case):
+    if case["kind"] == "session":
+        yield from _shrink_session(case)
+        return
     if case["kind"] == "row":
         for key in ("lookups", "dict", "fields"):
             l = case[key]
